@@ -1,2 +1,139 @@
+(* C46 — merge bases agree with git: the theorems.  [merge_base] is the model of
+   gix_revision::merge_base (Model.v); the specification is Spec.v: the merge bases of [first] and
+   [others] are the maximal elements of the set of common ancestors, which is what
+   `git merge-base --all first others…` prints (checked against git 2.39.5 by the harness). *)
 From GixV.Base Require Import Bytes Outcome.
-From GixV.C46 Require Import Model Spec.
+From GixV.C46 Require Import Model Spec ProofsBase ProofsPaint ProofsRR ProofsMain.
+
+(* the shortcut: no others, or first among the others *)
+Theorem mb_shortcut : forall fuel o g first others,
+  others = [] \/ In first others -> merge_base fuel o g first others = Ok (g, Some [first]).
+Proof. exact mb_shortcut_lemma. Qed.
+
+(* every returned id is a common ancestor of first and of one of the others — for every history, every
+   commit dates and generation numbers, every (consistent) content of the reused graph *)
+Theorem mb_sound : forall o first others fuel g g' res,
+  graph_ok o g -> others <> [] -> ~ In first others ->
+  merge_base fuel o g first others = Ok (g', res) ->
+  forall x, In x (bases_of res) -> common_ancestor o first others x.
+Proof. exact mb_sound_lemma. Qed.
+
+(* every maximal common ancestor is returned — again without any assumption on dates or generations *)
+Theorem mb_complete : forall o first others fuel g g' res,
+  graph_ok o g -> others <> [] -> ~ In first others ->
+  merge_base fuel o g first others = Ok (g', res) ->
+  forall x, is_merge_base o first others x -> In x (bases_of res).
+Proof. exact mb_complete_lemma. Qed.
+
+(* no returned id is a proper ancestor of another returned id *)
+Theorem mb_irredundant : forall o first others fuel g g' res,
+  graph_ok o g -> others <> [] -> ~ In first others ->
+  merge_base fuel o g first others = Ok (g', res) ->
+  forall x y, acyclic o -> gens_valid o ->
+  In x (bases_of res) -> In y (bases_of res) -> ~ reach_plus o y x.
+Proof. exact mb_irredundant_lemma. Qed.
+
+(* the result is exactly the set `git merge-base --all` is specified to print *)
+Theorem mb_exact : forall o first others fuel g g' res,
+  graph_ok o g -> others <> [] -> ~ In first others ->
+  merge_base fuel o g first others = Ok (g', res) ->
+  forall x, acyclic o -> gens_valid o ->
+  (In x (bases_of res) <-> is_merge_base o first others x).
+Proof. exact mb_exact_lemma. Qed.
+
+(* None is returned exactly when there is no common ancestor; Some is never empty *)
+Theorem mb_none : forall o first others fuel g g' res,
+  graph_ok o g -> others <> [] -> ~ In first others ->
+  merge_base fuel o g first others = Ok (g', res) ->
+  acyclic o -> (res = None <-> forall x, ~ common_ancestor o first others x).
+Proof. exact mb_none_lemma. Qed.
+
+(* the two phases on their own *)
+Theorem paint_down_to_common_sound : forall o first others fuel g g' bases,
+  graph_ok o g -> (forall i, fl g i = f_empty) ->
+  paint_down_to_common fuel o g first others = Ok (g', bases) ->
+  graph_ok o g' /\ NoDup (map fst bases) /\
+  forall i k, In (i, k) bases ->
+    common_ancestor o first others i /\ in_dom g' i /\ exists c, odb_find o i = Some c /\ k = key_of c.
+Proof. exact paint_sound. Qed.
+
+Theorem paint_down_to_common_complete : forall o first others fuel g g' bases x,
+  graph_ok o g -> (forall i, fl g i = f_empty) ->
+  paint_down_to_common fuel o g first others = Ok (g', bases) ->
+  is_merge_base o first others x -> In x (map fst bases).
+Proof. exact paint_complete. Qed.
+
+Theorem remove_redundant_spec : forall o commits, NoDup (map fst commits) ->
+  forall fuel g g' r,
+  graph_ok o g -> keys_ok o commits ->
+  remove_redundant fuel o g commits = Ok (g', r) ->
+  graph_ok o g' /\
+  (forall x, In x r -> In x (map fst commits)) /\
+  (forall x, In x (map fst commits) -> (forall y, In y (map fst commits) -> ~ reach_plus o y x) -> In x r) /\
+  (acyclic o -> gens_valid o -> forall x y, In x r -> In y (map fst commits) -> ~ reach_plus o y x) /\
+  (acyclic o -> commits <> [] -> r <> []).
+Proof. exact rr_spec. Qed.
+
+(* the priority queue hands back what was put in *)
+Theorem heap_push_is_insert : forall l x, Permutation.Permutation (heap_push l x) (x :: l).
+Proof. exact heap_push_perm. Qed.
+Theorem heap_pop_is_remove : forall l x l', heap_pop l = Some (x, l') -> Permutation.Permutation l (x :: l').
+Proof. exact heap_pop_perm. Qed.
+
+(* sufficient, checkable conditions for the hypotheses on histories *)
+Theorem acyclic_by_rank : forall rank o, rank_ok rank o = true -> acyclic o.
+Proof. exact rank_acyclic. Qed.
+Theorem gens_valid_by_check : forall o, gens_ok o = true -> gens_valid o.
+Proof. exact gens_ok_valid. Qed.
+
+(* ---- non-vacuity ---- *)
+(* an older common ancestor Y with a younger date, reachable from the base X only through a second parent
+   (the history on which the unfixed code returned Y and X) *)
+Definition ex_odb : odb :=
+  [ (bs "Q", mkCommit 5 None []);
+    (bs "Y", mkCommit 1000 None []);
+    (bs "M", mkCommit 5 None [bs "Q"; bs "Y"]);
+    (bs "X", mkCommit 6 None [bs "M"]);
+    (bs "A", mkCommit 10 None [bs "X"; bs "Y"]);
+    (bs "B", mkCommit 9 None [bs "X"; bs "Y"]) ].
+Example ex_run :
+  match merge_base 100 ex_odb [] (bs "A") [bs "B"] with Ok (_, r) => r = Some [bs "X"] | _ => False end.
+Proof. vm_compute. reflexivity. Qed.
+Example ex_graph_ok : graph_ok ex_odb [].
+Proof. intros i c f H. discriminate. Qed.
+Example ex_acyclic : acyclic ex_odb.
+Proof. apply (rank_acyclic (index_of ex_odb)). vm_compute. reflexivity. Qed.
+Example ex_gens_valid : gens_valid ex_odb.
+Proof. apply gens_ok_valid. vm_compute. reflexivity. Qed.
+Example ex_is_merge_base : is_merge_base ex_odb (bs "A") [bs "B"] (bs "X").
+Proof.
+  destruct (merge_base 100 ex_odb [] (bs "A") [bs "B"]) as [[g' r]| | |] eqn:E.
+  - pose proof ex_run as H. rewrite E in H. subst r.
+    apply (mb_exact ex_odb (bs "A") [bs "B"] 100 [] g' (Some [bs "X"]) ex_graph_ok); auto.
+    + discriminate.
+    + intros [X|[]]. discriminate.
+    + exact ex_acyclic.
+    + exact ex_gens_valid.
+    + left; auto.
+  - pose proof ex_run as H. rewrite E in H. destruct H.
+  - pose proof ex_run as H. rewrite E in H. destruct H.
+  - pose proof ex_run as H. rewrite E in H. destruct H.
+Qed.
+(* criss-cross with a commit-graph: two merge bases *)
+Definition ex_cc : odb :=
+  [ (bs "R", mkCommit 1 (Some 1%N) []);
+    (bs "P", mkCommit 2 (Some 2%N) [bs "R"]);
+    (bs "S", mkCommit 2 (Some 2%N) [bs "R"]);
+    (bs "C", mkCommit 3 (Some 3%N) [bs "P"; bs "S"]);
+    (bs "D", mkCommit 3 None [bs "S"; bs "P"]) ].
+Example ex_cc_run :
+  match merge_base 100 ex_cc [] (bs "C") [bs "D"] with
+  | Ok (_, r) => r = Some [bs "P"; bs "S"] \/ r = Some [bs "S"; bs "P"] | _ => False end.
+Proof. vm_compute. auto. Qed.
+Example ex_cc_hyps : acyclic ex_cc /\ gens_valid ex_cc.
+Proof.
+  split; [apply (rank_acyclic (index_of ex_cc)) | apply gens_ok_valid]; vm_compute; reflexivity.
+Qed.
+Example ex_none :
+  match merge_base 100 ex_odb [] (bs "Q") [bs "Y"] with Ok (_, r) => r = None | _ => False end.
+Proof. vm_compute. reflexivity. Qed.
